@@ -68,13 +68,24 @@ def _graph_schedules(g, limit):
     return out
 
 
-def _drive(chk, graph, procs, names, tag, prog_cap, rng):
+def _programs2():
+    """The program space of MC_Resources!Programs2, enumerated here so that the real engine can be driven while
+    TLC is still checking the model; run() verifies that TLC's initial states are exactly these programs."""
+    import itertools
+    L2 = [["a"], ["b"], ["b", "a"], ["a", "b"]]
+    out = []
+    for deps in ({"a": [], "b": []}, {"a": [], "b": ["a"]}, {"a": ["b"], "b": ["a"]}):
+        for ca, cb in itertools.product((True, False), repeat=2):
+            for asy in ({"a": True, "b": True}, {"a": True, "b": False}, {"a": False, "b": True}):
+                for i, j in itertools.combinations_with_replacement(range(4), 2):
+                    out.append({"deps": {k: list(v) for k, v in deps.items()}, "cache": {"a": ca, "b": cb},
+                                "asyncf": dict(asy), "params": {"p1": list(L2[i]), "p2": list(L2[j])}})
+    out.sort(key=repr)
+    return out
+
+
+def _explore(progs, procs):
     from harness.drivers import resources as drv
-    progs = [_prog_of(graph.state(sid)) for sid in graph.init]
-    progs.sort(key=repr)
-    if prog_cap and len(progs) > prog_cap:
-        progs = rng.sample(progs, prog_cap)
-        chk.exhaustive = False
     traces = []      # (prog, events, same_run)
     anomalies = []
     for prog in progs:
@@ -84,10 +95,16 @@ def _drive(chk, graph, procs, names, tag, prog_cap, rng):
         for tr, an in drv.explore(prog, procs, same_run=True):
             traces.append((prog, tr, True))
             anomalies += an
+    return traces, anomalies
+
+
+def _drive(chk, graph, procs, names, tag, progs, pre):
+    from harness.drivers import resources as drv
+    traces, anomalies = pre if pre is not None else _explore(progs, procs)
     n_impl = len(traces)
     n_model = 0
     for prog, sched in _graph_schedules(graph, chk.pick(400, 3000)):
-        if prog_cap and prog not in progs:
+        if prog not in progs:
             continue
         tr, an = drv.run_schedule(prog, procs, sched)
         anomalies += an
@@ -171,7 +188,10 @@ def run(chk):
                              extra=("-fp", "1"), env=({"JAVA_TOOL_OPTIONS": "-Xmx8g"} if big else {}))
 
     with ThreadPoolExecutor(max_workers=len(jobs)) as ex:
-        results = dict(ex.map(model, jobs))
+        futs = [ex.submit(model, n) for n in jobs]
+        progs2 = _programs2()
+        pre2 = _explore(progs2, ["p1", "p2"])          # the real engine, while TLC checks the models
+        results = dict(f.result() for f in futs)
     graphs = {}
     for name, res in results.items():
         chk.record_tlc("Resources/" + name, res)
@@ -192,10 +212,19 @@ def run(chk):
 
     total = nontriv = matched = 0
     if "quick" in graphs:
-        t, n, m = _drive(chk, graphs["quick"], ["p1", "p2"], ["a", "b"], "2", None, rng)
+        g = graphs["quick"]
+        from_tlc = sorted((_prog_of(g.state(sid)) for sid in g.init), key=repr)
+        if from_tlc != progs2:
+            raise Machinery("the programs driven on the real engine are not the ones TLC enumerated (%d vs %d)" % (
+                len(progs2), len(from_tlc)))
+        t, n, m = _drive(chk, g, ["p1", "p2"], ["a", "b"], "2", progs2, pre2)
         total, nontriv, matched = total + t, nontriv + n, matched + m
     if "thorough" in graphs:
-        t, n, m = _drive(chk, graphs["thorough"], ["p1", "p2", "p3"], ["a", "b", "c"], "3", 400, rng)
+        g = graphs["thorough"]
+        progs3 = sorted((_prog_of(g.state(sid)) for sid in g.init), key=repr)
+        progs3 = rng.sample(progs3, min(len(progs3), 300))
+        chk.exhaustive = False
+        t, n, m = _drive(chk, g, ["p1", "p2", "p3"], ["a", "b", "c"], "3", progs3, None)
         total, nontriv, matched = total + t, nontriv + n, matched + m
     chk.add(evaluations=total, distinct_nontrivial=nontriv, traces_validated_against_impl=matched)
     chk.assumptions += [
